@@ -19,7 +19,7 @@ pub fn def() -> PropDef {
             "Fmt_Exponential", "Fmt_Dotless", "Fmt_FullScale", "Fmt_IntPad", "Fmt_WithInteger", "Fmt_NoInteger_Sig",
             "Fmt_Plain", "Fmt_Sci", "Fmt_Eng", "Parse_NoDot", "Parse_DotInside", "Parse_Exponent",
         ],
-        rule: "grid: every digit length 1..40 x every scale -40..60 x {random, all-nines, 10^k digits} x sign, zero at every grid scale; seeded decimals of 1..3000 digits with scales to +-10^15 (plain notation only for |scale| <= 10^4), 0.000ddd with 3..8 leading zeros, integers with 12..18 trailing zeros. Each value is rendered 10 ways on values and references ({} {:e} {:E} scientific engineering plain and the write_* variants) and every text is parsed back: must parse, be value-equal, keep (digits, scale) where the statement says so, Display length <= digits + 48, Display uses exponent form exactly beyond the documented thresholds (5 leading / 15 trailing zeros), value and reference renderings identical. distinct = distinct decimals; non-trivial = non-zero",
+        rule: "grid: every digit length 1..40 x every scale -40..60 x {random, all-nines, 10^k digits} x sign, zero at every grid scale, at scales to +-10^15 and at the ends of the i64 range (i64::MIN, i64::MAX, +-2^31, +-2^32, +-2^53, +-2^62); seeded decimals of 1..3000 digits with scales to +-10^15 (plain notation only for |scale| <= 10^4), 0.000ddd with 3..8 leading zeros, integers with 12..18 trailing zeros. Each value is rendered 10 ways on values and references ({} {:e} {:E} scientific engineering plain and the write_* variants) and every text is parsed back: must parse, be value-equal, keep (digits, scale) where the statement says so, Display length <= digits + 48, Display uses exponent form exactly beyond the documented thresholds (5 leading / 15 trailing zeros), value and reference renderings identical. distinct = distinct decimals; non-trivial = non-zero",
     }
 }
 
@@ -124,7 +124,10 @@ fn run_unit(unit: &Unit, r: &mut Rng, ctx: &mut Ctx) {
         }
         "zeros" => {
             for _ in 0..unit.count {
-                let s = match r.below(4) {
+                let s = match r.below(5) {
+                    // "zero with any scale": the ends of the i64 range and the places where a narrower integer type ends
+                    4 => *r.pick(&[i64::MIN, i64::MIN + 1, i64::MIN + 2, i64::MAX, i64::MAX - 1, -(1i64 << 31), -(1i64 << 31) - 1, -(1i64 << 31) + 1, 1i64 << 31, (1i64 << 31) - 1,
+                        1i64 << 32, -(1i64 << 32), (1i64 << 32) - 1, 1i64 << 53, -(1i64 << 53), 1i64 << 62, -(1i64 << 62)]),
                     0 => r.range(-60, 60),
                     1 => *r.pick(&[1_000_000_000_000_000i64, -1_000_000_000_000_000, 10_000, -10_000, 21, -21, 20, -20, 16, -16, 15, -15, 5, 6, 7]),
                     2 => r.range(-1_000_000_000_000_000, 1_000_000_000_000_000),
@@ -161,7 +164,7 @@ pub fn check_case(case: &Case, ctx: &mut Ctx) {
     ctx.begin_case(case);
     let b = d.bd();
     let digits = ndigits(&d.n) as usize;
-    let plain_ok = d.s.abs() <= 10_000;
+    let plain_ok = d.s.unsigned_abs() <= 10_000;
     let zero = d.n.is_zero();
 
     let rendered = ctx.guard(|| {
